@@ -142,6 +142,28 @@ be64(const uint8_t *p)
 	return v;
 }
 
+// Deadlines are counted on a clock that only runs while this thread runs: the
+// waiting loops below come round every few ms, so a long gap between two
+// rounds means the process was not scheduled (stopped, starved, reclaim stall)
+// and that gap is not charged to the library.
+typedef struct {
+	uint64_t last, used;
+} pclock;
+static void
+pc_start(pclock *p)
+{
+	p->last = vf_now_ns();
+	p->used = 0;
+}
+static uint64_t
+pc_ms(pclock *p)
+{
+	uint64_t now = vf_now_ns(), gap = now - p->last;
+	p->last = now;
+	p->used += gap > 100000000ULL ? 100000000ULL : gap;
+	return p->used / 1000000ULL;
+}
+
 // growable byte buffer
 typedef struct {
 	uint8_t *p;
@@ -247,6 +269,7 @@ log_dump(uint64_t since_ns)
 // by how much it overslept; a process that is not being run shows it here
 static _Atomic uint64_t tick_max_over_ns; // since the last reset
 static _Atomic uint64_t tick_count;
+static _Atomic uint64_t tick_last_ns;
 static void *
 ticker(void *arg)
 {
@@ -258,6 +281,7 @@ ticker(void *arg)
 		uint64_t o = d > 1000000 ? d - 1000000 : 0;
 		if (o > atomic_load(&tick_max_over_ns)) atomic_store(&tick_max_over_ns, o);
 		atomic_fetch_add(&tick_count, 1);
+		atomic_store(&tick_last_ns, vf_now_ns());
 	}
 	return NULL;
 }
@@ -631,9 +655,10 @@ c_pipe_cb(nng_pipe p, nng_pipe_ev ev, void *arg)
 static bool
 wait_atomic_ge(atomic_int *a, int want, int timeout_ms, victim *v)
 {
-	uint64_t end = vf_now_ns() + (uint64_t) timeout_ms * 1000000ULL;
+	pclock pc;
+	pc_start(&pc);
 	while (atomic_load(a) < want) {
-		if (vf_now_ns() > end) return false;
+		if (pc_ms(&pc) > (uint64_t) timeout_ms) return false;
 		if (v) pump(v);
 		vf_usleep(500);
 	}
@@ -753,7 +778,9 @@ ctl_connect(victim *v, int k)
 		// victim refuses the connection because a (dead, not yet noticed)
 		// earlier peer still holds the slot, hand over a new socketpair
 		nng_listener cl;
-		uint64_t     end = vf_now_ns() + 8000ULL * 1000000ULL;
+		pclock       cpc;
+		pc_start(&cpc);
+#define CC_LEFT() ((int64_t) 8000 - (int64_t) pc_ms(&cpc))
 		if ((rv = nng_listener_create(&cl, c->s, "socket://")) != 0 || (rv = nng_listener_start(cl, 0)) != 0) vf_harness_fail("ctl sockfd: %s", nng_strerror(rv));
 		for (;;) {
 			int sv[2];
@@ -761,7 +788,7 @@ ctl_connect(victim *v, int k)
 			if (socketpair(AF_UNIX, SOCK_STREAM | SOCK_CLOEXEC, 0, sv) != 0) vf_harness_fail("socketpair");
 			if ((rv = nng_listener_set_int(cl, NNG_OPT_SOCKET_FD, sv[1])) != 0 ||
 			    (rv = nng_listener_set_int(v->l, NNG_OPT_SOCKET_FD, sv[0])) != 0) vf_harness_fail("ctl sockfd: %s", nng_strerror(rv));
-			int64_t left = ((int64_t) end - (int64_t) vf_now_ns()) / 1000000;
+			int64_t left = CC_LEFT();
 			if (left <= 0 || !wait_atomic_ge(&c->add, adds0 + 1, (int) left, v)) return false;
 			// accepted by the victim's socket, or refused (its end is closed)?
 			bool refused = false;
@@ -771,7 +798,7 @@ ctl_connect(victim *v, int k)
 					break;
 				}
 				if (atomic_load(&v->post) > post0) break;
-				if (vf_now_ns() > end) return false;
+				if (CC_LEFT() <= 0) return false;
 				pump(v);
 				vf_usleep(300);
 			}
@@ -783,7 +810,7 @@ ctl_connect(victim *v, int k)
 				while (vf_now_ns() < g && atomic_load(&c->rem) == rems0) vf_usleep(300);
 				if (atomic_load(&c->rem) == rems0) return true;
 			}
-			if (vf_now_ns() > end) return false;
+			if (CC_LEFT() <= 0) return false;
 			vf_stat("control_refused_slot_taken_retry", 1);
 			post0 = atomic_load(&v->post);
 			settle(v, 300);
@@ -917,8 +944,9 @@ static bool
 exchange_(victim *v, int k, int *triesp)
 {
 	ctlsock *c   = &v->ctl[k];
-	uint64_t end = vf_now_ns() + 6000ULL * 1000000ULL;
+	pclock   xpc;
 	int      tries = 0;
+	pc_start(&xpc);
 	// udp: the transport hands a datagram that arrived while no receive was
 	// pending to the protocol only when the next one arrives, so a message
 	// may surface one retry late; any message of this exchange proves that
@@ -926,8 +954,8 @@ exchange_(victim *v, int k, int *triesp)
 	bool     udp  = v->tran == T_UDP;
 	uint32_t seq0 = v->ctl_seq + 1;
 	// the deadline is attempts as much as time: a slow machine gets its 12 tries
-	uint64_t cap = vf_now_ns() + 30000ULL * 1000000ULL;
-	while ((vf_now_ns() < end || tries < 12) && vf_now_ns() < cap) {
+	uint64_t xms;
+	while (((xms = pc_ms(&xpc)) < 6000 || tries < 12) && xms < 30000) {
 		uint32_t seq = ++v->ctl_seq;
 		uint32_t lo  = udp ? seq0 : seq;
 		nng_msg *m;
@@ -1179,6 +1207,8 @@ ctl_mark_established(ctlsock *c)
 static bool
 starved(void)
 {
+	uint64_t last = atomic_load(&tick_last_ns), now = vf_now_ns();
+	if (last != 0 && now > last && now - last > 700000000ULL) return true; // the ticker has not even run again yet
 	return atomic_load(&tick_max_over_ns) > 700000000ULL;
 }
 
@@ -1752,8 +1782,9 @@ fd_write_pump(victim *v, int fd, const uint8_t *b, size_t n, int chunk, vf_rng *
 static int
 fd_wait_eof_pump(victim *v, int fd, int ms)
 {
-	uint64_t end = vf_now_ns() + (uint64_t) ms * 1000000ULL;
-	uint8_t  tmp[2048];
+	pclock  pc;
+	uint8_t tmp[2048];
+	pc_start(&pc);
 	for (;;) {
 		struct pollfd p = { fd, POLLIN, 0 };
 		int           pr = poll(&p, 1, 2);
@@ -1763,7 +1794,7 @@ fd_wait_eof_pump(victim *v, int fd, int ms)
 			if (n < 0 && errno != EAGAIN && errno != EINTR) return 1;
 		}
 		pump(v);
-		if (vf_now_ns() > end) return 0;
+		if (pc_ms(&pc) > (uint64_t) ms) return 0;
 	}
 }
 
@@ -2274,8 +2305,9 @@ run_ws_session(victim *v, plan *pl, vf_rng *r, bool do_new, bool do_spin)
 	size_t rn = 0;
 	bool   upgraded = false;
 	if (w0 == httplen) {
-		uint64_t end = vf_now_ns() + 5000ULL * 1000000ULL;
-		while (rn < sizeof(resp) - 1 && vf_now_ns() < end) {
+		pclock hpc;
+		pc_start(&hpc);
+		while (rn < sizeof(resp) - 1 && pc_ms(&hpc) < 8000) {
 			struct pollfd p = { fd, POLLIN, 0 };
 			if (poll(&p, 1, 5) <= 0) { pump(v); continue; }
 			ssize_t k = read(fd, resp + rn, 1); // byte-wise: never eat frames that follow
@@ -2573,8 +2605,9 @@ run_udp_session(victim *v, plan *pl, vf_rng *r, bool do_new, bool do_spin)
 		// probe is repeated before silence is taken for "not closed".
 		bool rejected = false;
 		for (int round = 0; round < 3 && !disc_seen && !rejected; round++) {
-			uint64_t end = vf_now_ns() + (round == 0 ? 3000ULL : 1500ULL) * 1000000ULL;
-			while (!disc_seen && vf_now_ns() < end) {
+			pclock opc;
+			pc_start(&opc);
+			while (!disc_seen && pc_ms(&opc) < (round == 0 ? 3000u : 1500u)) {
 				disc_seen = udp_drain(fd, 3, NULL, NULL);
 				pump(v);
 			}
